@@ -1,5 +1,7 @@
 import Pyunicorn.Model.Proto
 import Pyunicorn.Model.Similarity
+import Pyunicorn.Model.SimilarityHilbert
+import Pyunicorn.Model.SimilarityScript
 /-! Line-protocol driver for C09.
 
 Requests (`S`, `damp` row-major rational matrices):
@@ -11,6 +13,10 @@ Requests (`S`, `damp` row-major rational matrices):
 * `hist <N> <directed> <nl> <S0> <damp> <init> <op,…> [<S1>@<S2>…]` with `init`/ops `T:<θ>`,
   `D:<ρ>` (exact rational value of the double), `L:<0|1>`, `R:<k>` (regenerate with the k-th
   extra matrix) → one state per op (init included) `θ|A|n_links|density`, separated by `;`
+* `hhist <N> <directed> <nl> <S0> <P0> <damp> <init> <op,…> [<M0>@<M1>…]`: the same for
+  `HilbertClimateNetwork` (`P0` = phase matrix; additional op `X:<d>:<kS>:<kP>` =
+  `set_directed(d)` with the coherence / phase matrices the object stores afterwards) →
+  states `θ|A|n_links|density|directed`
 -/
 open Pyunicorn Pyunicorn.Proto Pyunicorn.Similarity
 
@@ -40,6 +46,95 @@ def trace (s : Net) : List Op → List String
     | some s' =>
       -- the adjacency setter raises before the object is usable
       if s'.density.isNone then ["raise:ZeroDivision"] else showState s' :: trace s' os
+
+def showHState (h : HNet) : String :=
+  s!"{showState h.net}|{if h.net.directed then 1 else 0}"
+
+def parseHOp (N : Nat) (mats : List Sim) (tok : String) : Option HOp :=
+  match tok.splitOn ":" with
+  | ["T", v] => (rat? v).map HOp.thr
+  | ["D", v] => (rat? v).map fun ρ => HOp.dens (ieeeIndex ρ (N * N - N))
+  | ["L", v] => v.toNat?.map fun b => HOp.nl (b != 0)
+  | ["X", d, ks, kp] =>
+    match d.toNat?, ks.toNat?.bind (mats[·]?), kp.toNat?.bind (mats[·]?) with
+    | some dv, some S1, some P1 => some (HOp.dir (dv != 0) S1 P1)
+    | _, _, _ => none
+  | _ => none
+
+def htrace (h : HNet) : List HOp → List String
+  | [] => []
+  | o :: os =>
+    match h.step o with
+    | none => ["raise:IndexError"]
+    | some h' =>
+      if h'.net.density.isNone then ["raise:ZeroDivision"] else showHState h' :: htrace h' os
+
+/-- the constructor of `HilbertClimateNetwork` as an initial op -/
+def hinit (N : Nat) (d nl : Bool) (S0 P0 damp : Sim) (tok : String) : Option (Option HNet) :=
+  match tok.splitOn ":" with
+  | ["T", v] => (rat? v).map fun θ => some (mkHilbert N d S0 P0 damp nl θ)
+  | ["D", v] => (rat? v).map fun ρ => mkHilbertDensity N d S0 P0 damp nl (ieeeIndex ρ (N * N - N))
+  | _ => none
+
+/-! ### the same histories executed by the interpreter of the *generated* method scripts -/
+section Scripts
+open Pyunicorn.Similarity.Script Pyunicorn.Generated
+
+def zeroSim : Sim := fun _ _ => 0
+
+def frame0 (N : Nat) (damp : Sim) : Frame :=
+  { h := { net := blank N false zeroSim damp false, phase := zeroSim }, hasAdj := false,
+    argθ := 0, argK := 0, argNl := false, argDir := false, initθ := none, initK := none,
+    initS := zeroSim, envS := zeroSim, envP := zeroSim, locθ := 0, locS := zeroSim, locA := [],
+    resS := zeroSim, resP := zeroSim }
+
+/-- one public call on a `ClimateNetwork` (`hil = false`) / `HilbertClimateNetwork` -/
+def scriptStep (hil : Bool) (fr : Frame) : HOp → Option Frame
+  | .thr θ => run 8 hil (setThresholdOf hil) { fr with argθ := θ }
+  | .dens k => run 8 hil StructC09.setLinkDensity { fr with argK := k }
+  | .nl b => run 8 hil StructC09.setNonLocal { fr with argNl := b }
+  | .dir d S1 P1 =>
+    if hil then run 8 true StructC09.hilbertSetDirected { fr with argDir := d, envS := S1, envP := P1 }
+    -- plain ClimateNetwork: `_similarity_measure = S1; _regenerate_network()`
+    else run 8 false StructC09.regenerate (setNet fr fun n => { n with S := S1 })
+
+def showFrame (hil : Bool) (fr : Frame) : String :=
+  if hil then showHState fr.h else showState fr.h.net
+
+def strace (hil : Bool) (fr : Frame) : List HOp → List String
+  | [] => []
+  | o :: os =>
+    match scriptStep hil fr o with
+    | none => ["raise:IndexError"]
+    | some fr' =>
+      if fr'.h.net.density.isNone then ["raise:ZeroDivision"]
+      else showFrame hil fr' :: strace hil fr' os
+
+/-- constructor through the generated `__init__` scripts; `init` = `T:θ`, `D:ρ` or `-` (neither) -/
+def sinit (hil : Bool) (N : Nat) (d nl : Bool) (S0 P0 damp : Sim) (tok : String) :
+    Option (Option Frame) :=
+  let fr := { frame0 N damp with argNl := nl, argDir := d, initS := S0, envS := S0, envP := P0 }
+  let go (fr : Frame) := some (run 8 hil (if hil then StructC09.hilbertInit else StructC09.init) fr)
+  match tok.splitOn ":" with
+  | ["T", v] => (rat? v).bind fun θ => go { fr with initθ := some θ }
+  | ["D", v] => (rat? v).bind fun ρ => go { fr with initK := some (ieeeIndex ρ (N * N - N)) }
+  | ["-"] => go fr
+  | _ => none
+
+def sanswer (hil : Bool) (N : Nat) (d nl : Bool) (S0 P0 damp : Sim) (init ops : String)
+    (mats : List Sim) : String :=
+  let parse (tok : String) : Option HOp :=
+    match tok.splitOn ":" with
+    | ["R", v] => v.toNat?.bind fun k => (mats[k]?).map fun S1 => HOp.dir false S1 zeroSim
+    | _ => parseHOp N mats tok
+  match sinit hil N d nl S0 P0 damp init, (splitTok ops ",").mapM parse with
+  | some none, _ => if init == "-" then "raise:AttributeError" else "raise:IndexError"
+  | some (some fr), some os =>
+    if fr.h.net.density.isNone then "raise:ZeroDivision"
+    else join (showFrame hil fr :: strace hil fr os) ";"
+  | _, _ => "bad-request"
+
+end Scripts
 
 def answer (toks : List String) : String :=
   match toks with
@@ -72,6 +167,31 @@ def answer (toks : List String) : String :=
     match ((splitTok init ",") ++ (splitTok ops ",")).mapM (parseOp N mats) with
     | none => "bad-request"
     | some os => join (trace b os) ";"
+  -- `shist` / `shhist`: the requests of `hist` / `hhist`, run through the generated scripts
+  | "shist" :: n :: d :: nl :: s0 :: dm :: init :: ops :: rest =>
+    let mats := match rest with
+      | [m] => (splitTok m "@").map fun t => matFn (ratMat t)
+      | _ => []
+    sanswer false n.toNat! (d != "0") (nl != "0") (matFn (ratMat s0)) zeroSim (matFn (ratMat dm))
+      init ops mats
+  | "shhist" :: n :: d :: nl :: s0 :: p0 :: dm :: init :: ops :: rest =>
+    let mats := match rest with
+      | [m] => (splitTok m "@").map fun t => matFn (ratMat t)
+      | _ => []
+    sanswer true n.toNat! (d != "0") (nl != "0") (matFn (ratMat s0)) (matFn (ratMat p0))
+      (matFn (ratMat dm)) init ops mats
+  | "hhist" :: n :: d :: nl :: s0 :: p0 :: dm :: init :: ops :: rest =>
+    let N := n.toNat!
+    let mats := match rest with
+      | [m] => (splitTok m "@").map fun t => matFn (ratMat t)
+      | _ => []
+    match hinit N (d != "0") (nl != "0") (matFn (ratMat s0)) (matFn (ratMat p0))
+        (matFn (ratMat dm)) init, (splitTok ops ",").mapM (parseHOp N mats) with
+    | some none, _ => "raise:IndexError"
+    | some (some h), some os =>
+      if h.net.density.isNone then "raise:ZeroDivision"
+      else join (showHState h :: htrace h os) ";"
+    | _, _ => "bad-request"
   | _ => "bad-request"
 
 def main : IO Unit := runDriver answer
